@@ -343,12 +343,18 @@ pub fn c17(tier: Tier) -> i32 {
             let b = build_menu(&[None, Some(2)], &[None, Some(1)], 1);
             runs.push((cfg(Metric::Cosine, 2, 5, b.clone(), vec![5, 2], obs.clone(), "cosine-d2"), caps(25)));
             runs.push((cfg(Metric::Cosine, 65, 4, b, vec![4, 1], obs.clone(), "cosine-d65"), caps(15)));
+            // three builds with changing tree counts (shrink, then grow): the order of the roots in the metadata is
+            // then not the sorted one, and the upgrade must keep it
+            let counts = build_menu(&[Some(1), Some(3), Some(4)], &[Some(1)], 1);
+            runs.push((cfg(Metric::Cosine, 2, 3, counts, vec![3, 0, 0], obs.clone(), "cosine-d2-tree-counts"), caps(15)));
         }
         Tier::Thorough => {
             let b = build_menu(&[None, Some(1), Some(3)], &[None, Some(1), Some(2)], 1);
             for d in [1usize, 2, 3, 65] {
                 runs.push((cfg(Metric::Cosine, d, 5, b.clone(), vec![5, 2], obs.clone(), &format!("cosine-d{d}")), caps(300)));
             }
+            let counts = build_menu(&[Some(1), Some(2), Some(3), Some(4), Some(5)], &[Some(1)], 1);
+            runs.push((cfg(Metric::Cosine, 2, 4, counts, vec![4, 1, 1], obs.clone(), "cosine-d2-tree-counts"), caps(120)));
         }
     }
     crate::props::run_hist_runs(&mut report, "C17", &runs);
